@@ -120,6 +120,11 @@ func genSqlCfg(r *rng, prop string, tier string) SqlCfg {
 	c.PSelect = 0.25
 	c.InitRows = []int{0, 5, 20, 60}[r.Intn(4)]
 	switch prop {
+	case "C01":
+		// committed data across sequences of restarts (sessions that log nothing, crash after crash, ...)
+		c.PRestart = []float64{0.03, 0.08, 0.15}[r.Intn(3)]
+		c.PCrashRestart = []float64{0.05, 0.1, 0.2}[r.Intn(3)]
+		c.PAbort = 0.15
 	case "C09":
 		c.PRestart = 0.1
 		c.PCrashRestart = []float64{0, 0.03}[r.Intn(2)]
@@ -213,6 +218,18 @@ func genSqlCfg(r *rng, prop string, tier string) SqlCfg {
 			c.Tables = append(c.Tables, TableSpec{Name: fmt.Sprintf("t%d", i), Cols: cols, Wide: []int{6, 30, 120}[r.Intn(3)]})
 		}
 		c.InitRows = []int{0, 2, 8, 25, 60, 90}[r.Intn(6)]
+	}
+	if (prop == "C09" && r.Chance(0.05)) || os.Getenv("VERIF_FORCE_SPARSEHASH") != "" {
+		// sparse hash index as the newest object of the file: a single small table whose hash blocks are
+		// the last pages allocated, an early clean shutdown, then growth
+		c.Tables = []TableSpec{{Name: "t0", Cols: []Col{{"k", TInt}, {"a", TInt}}, Wide: 6, IdxKinds: []string{"", "hash"}}}
+		c.LateTables = nil
+		c.InitRows = []int{0, 2, 3, 5}[r.Intn(4)]
+		c.PRestart = 0.04
+		c.PCrashRestart = 0
+		c.PAbort = 0.05
+		c.PSelect = 0.05
+		c.NOps = 500 + r.Intn(400) // enough inserts after a reopen for the heap to grow onto new pages
 	}
 	hashRun := false
 	for _, t := range c.Tables {
@@ -1552,6 +1569,12 @@ func (sr *SqlRun) execute(ops []Op, gen *sqlGen) {
 				} else if op.Stmt != nil && op.Stmt.Join != nil {
 					prop = "C11"
 				}
+				if sr.restarts > 0 && (flProp == "C09" || flProp == "C10") {
+					// the reopened database must accept further statements: a panic after a restart belongs
+					// to the restart property under test (it would otherwise only be counted as another
+					// property's observation)
+					sr.viol(flProp, "statement-panic-after-restart", fmt.Sprintf("%s %s: %s", op.Kind, opSQL(op), e.Panic.String()), i)
+				}
 				sr.viol(prop, "statement-panic", fmt.Sprintf("%s %s: %s", op.Kind, opSQL(op), e.Panic.String()), i)
 				sr.dead = true
 				continue
@@ -1671,7 +1694,11 @@ func newSqlRun(seed uint64, cfg SqlCfg, tag string) *SqlRun {
 func runSqlSim(run int, seed uint64) RunReport {
 	rep := RunReport{}
 	wr := newRng(simrt.Mix(seed, 1))
-	cfg := genSqlCfg(wr, flProp, flTier)
+	cfgProp := flProp
+	if v := os.Getenv("VERIF_SQL_CFG_PROP"); v != "" {
+		cfgProp = v // (diagnosis: the configuration of another property's runs, reported under -prop)
+	}
+	cfg := genSqlCfg(wr, cfgProp, flTier)
 	sr := newSqlRun(seed, cfg, "q")
 	defer os.RemoveAll(sr.Dir)
 	liveCfg, liveOps = &sr.Cfg, &sr.Ops
